@@ -610,7 +610,10 @@ class BrownianInterval(brownian_base.BaseBrownian, _Interval):
         if ta > tb:
             raise RuntimeError(f"Query times ta={ta:.3f} and tb={tb:.3f} must respect ta <= tb.")
 
-        if ta == tb:
+        # Compare the end points at the resolution `tol` we actually resolve the Brownian motion to: an interval that
+        # is empty after rounding has zero increment. (Searching the tree for it would create degenerate children, and
+        # in the dyadic case never terminate.)
+        if self._round(ta) == self._round(tb):
             W = torch.zeros(self._size, dtype=self._dtype, device=self._device)
             H = None
             A = None
